@@ -651,6 +651,8 @@ def r9(ctx):
 
 def run(ctx):
     _CTX[0] = ctx
+    # R10 BUILD-PARITY: the mutators and result() do the same with and without debug assertions
+    debug_parity(ctx, 'C10.R10', sorted(MUTATORS) + ['game::Game::result'])
     r9(ctx)
     r12(ctx)
     r3(ctx)
